@@ -48,6 +48,12 @@ FILLERS = [
     ("from_import_other", ["from harmless_pkg_ import thing_"]),
     ("decorated_class", ["@decorate_", "class Between_:", "    x = 1"]),
     ("global_stmt_in_def", ["def between_():", "    global {n}", "    return 1"]),
+    # calls that "harden" or configure something at run time: what a later expression denotes does not depend on them (seeded change C01-m14 stopped
+    # reporting XML rules once a defusedxml.defuse_stdlib() call had been VISITED, even inside a helper that is never called)
+    ("hardening_call", ["import defusedxml", "defusedxml.defuse_stdlib()"]),
+    ("hardening_call_in_helper", ["def harden_():", "    from defusedxml import defuse_stdlib as harden", "    harden()"]),
+    ("guarded_hardening", ["try:", "    import defusedxml", "except ImportError:", "    defusedxml = None", "if defusedxml is not None:", "    defusedxml.defuse_stdlib()"]),
+    ("config_calls", ["import warnings, logging, random", "warnings.simplefilter('ignore')", "logging.disable(50)", "random.seed(0)", "sys_.setrecursionlimit(50)"]),
 ]
 
 
